@@ -28,6 +28,9 @@ func init() {
 			}
 			return tuple{fr.i.reMatch(reOf(re[0]), a[1]), iface{}}
 		},
+		"regexp.QuoteMeta": func(fr *frame, a []value) value {
+			return regexp.QuoteMeta(fr.i.concStr(a[0], "regexp.QuoteMeta"))
+		},
 		"(*regexp.Regexp).MatchString": func(fr *frame, a []value) value { return fr.i.reMatch(reOf(a[0]), a[1]) },
 		"(*regexp.Regexp).Match":       func(fr *frame, a []value) value { return fr.i.reMatch(reOf(a[0]), mkstr(a[1].([]value))) },
 		"(*regexp.Regexp).String":      func(fr *frame, a []value) value { return reOf(a[0]).String() },
